@@ -29,6 +29,7 @@ def source_files(repo):
             for f in sorted(files):
                 if f.endswith(('.cpp', '.hpp', '.h')):
                     out.append(os.path.join(root, f))
+    if os.path.exists(os.path.join(repo, 'main.cpp')): out.append(os.path.join(repo, 'main.cpp'))
     return sorted(out)
 
 
@@ -55,7 +56,7 @@ def tree_hash(repo, defines):
     h.update(subprocess.run(['clang++', '--version'], capture_output=True, text=True).stdout.encode())
     h.update(repr(flags(repo, defines)).encode())
     h.update(open(os.path.join(HERE, 'astfilter.c'), 'rb').read())
-    h.update(b'v5')
+    h.update(b'v6')
     for f in source_files(repo):
         h.update(f.encode()); h.update(b'\0'); h.update(open(f, 'rb').read()); h.update(b'\0')
     return h.hexdigest()[:24]
@@ -66,6 +67,8 @@ def run_clang(repo, defines, workdir):
     with open(unity, 'w') as f:
         for s in unity_list(repo):
             f.write('#include "%s"\n' % s)
+        # the program entry point (AST only; the native replay library is built from unity_list alone)
+        if os.path.exists(os.path.join(repo, 'main.cpp')): f.write('#include "%s"\n' % os.path.join(repo, 'main.cpp'))
         # verification harness text (not repository code): explicit instantiation definitions make clang instantiate
         # every member of the class templates for the element types the repository uses, so that each member's body
         # (taken from the repository's headers) is present in the AST
@@ -78,7 +81,7 @@ def run_clang(repo, defines, workdir):
     cmd = ['clang++'] + flags(repo, defines) + ['-fsyntax-only', '-Xclang', '-ast-dump=json', unity]
     with open(out, 'wb') as fo, open(err, 'wb') as fe:
         p1 = subprocess.Popen(cmd, stdout=subprocess.PIPE, stderr=fe)
-        p2 = subprocess.Popen([filt, os.path.join(repo, 'src'), os.path.join(repo, 'include'), unity],
+        p2 = subprocess.Popen([filt, os.path.join(repo, 'src'), os.path.join(repo, 'include'), unity, os.path.join(repo, 'main.cpp')],
                               stdin=p1.stdout, stdout=fo, stderr=subprocess.DEVNULL)
         p1.stdout.close()
         p2.wait(); p1.wait()
